@@ -1059,7 +1059,7 @@ func (o *otaint) clockRule(f *ssa.Function, ordn *ordinals) {
 								okCol = true
 							}
 						}
-						if okCol && fname(f) == "pegnet.Pegnet.markHeightSyncedVersion" {
+						if okCol && strings.HasSuffix(fname(f), ".markHeightSyncedVersion") { // method or plain function
 							allowed = "flows to pn_sync_version.unix_timestamp (excluded by the property)"
 							continue
 						}
